@@ -44,6 +44,9 @@ static const KnownDefect KNOWN_DEFECTS[] = {
     {"walker-child-of-skipped-current-escapes",
      "DOMTreeWalkerImpl::getFirstChild/getLastChild continue with the siblings of the current node when the current node itself is skipped: firstChild()/lastChild() return a node that is not a descendant of the current node",
      "mkTW(0,1,2);tw.setCurrentNode(0,2);tw.firstChild(0)"},
+    {"range-splitText-start-after-end",
+     "DOMTextImpl::splitText / DOMRangeImpl::updateSplitInfo move a start point behind the split offset into the new Text node but leave an end point at (parent, index+1) in front of that node: start after end",
+     "mkRange(1);rg.setEnd(0,2,1);splitText(3,0)"},
 };
 static const int N_KNOWN = sizeof(KNOWN_DEFECTS) / sizeof(KNOWN_DEFECTS[0]);
 static bool g_guard[8] = {false, false, false, false, false, false, false, false};
@@ -387,7 +390,7 @@ struct World {
     ApplyResult apply(const VOp& op, Sink& S, bool probe = true) {
         S.op = op.str();
         RModel saved = ref;
-        ref.removals = 0; ref.hitD1 = ref.hitD2 = false;
+        ref.removals = 0; ref.hitD1 = ref.hitD2 = ref.hitD7 = false;
         int firstNew = (int)ref.n.size();
         Info inf;
         Out ro = ref_apply(ref, op, inf);
@@ -396,6 +399,7 @@ struct World {
         guardedId = -1;
         if (g_guard[0] && ref.hitD1) guardedId = 0;
         else if (g_guard[1] && ref.hitD2 && ref.removals > 0) guardedId = 1;
+        else if (g_guard[6] && ref.hitD7) guardedId = 6;
         else if (g_guard[2] || g_guard[3] || g_guard[4] || g_guard[5]) guardedId = guardPredicate(saved, op);
         if (guardedId >= 0) { ref = saved; S.count(std::string("guarded:") + KNOWN_DEFECTS[guardedId].id); return AR_GUARDED; }
         std::vector<std::string> before;
